@@ -347,7 +347,12 @@ def gen_op(rng, spec, allow_bad=True, far=True, rot_ref_small=False):
     r = ref()
     if rot_ref_small and r is not None:
         r = [float(Fraction(rng.randint(-64, 64), 4)) for _ in range(nd)]
-    op = dict(t="rotate90", ax1=a1, ax2=a2, k=rng.randint(-6, 6), ref=r, inplace=inplace, form=form)
+    k = rng.randint(-6, 6)
+    if rng.random() < 0.06:
+        # many whole turns (finding D131: before repo fix d6b0640f the corner error of Region.rotate90 grew with |k|;
+        # the matrix of k quarter turns is now taken from the table of k mod 4)
+        k = rng.choice([1002, -1001, 10 ** 6 + 1, -(10 ** 6) - 3, 4 * 10 ** 5, -(4 * 10 ** 5) + 2])
+    op = dict(t="rotate90", ax1=a1, ax2=a2, k=k, ref=r, inplace=inplace, form=form)
     if allow_bad and rng.random() < 0.08:
         # arguments only the innermost call refuses: they must be refused in both forms with nothing changed
         op["badarg"] = rng.choice(["k_float", "k_half", "ref_len", "ref_str", "ref_scalar", "ax_case", "ax_case"])
@@ -489,3 +494,345 @@ def cmp_obj(name, o, mj, dis):
         cmp_mesh(name, o, mj, dis)
     else:
         cmp_region(name, o, mj, dis)
+
+
+# ------------------------------------------------------------------ store sessions (round 3): who holds which Region object
+# A session is a list of statements; objects are named by the statement that produced them:
+#   {"res": k}                       the Region statement k evaluated to
+#   {"mesh": k, "part": "region"}    the region of the Mesh statement k evaluated to
+#   {"mesh": k, "sub": name}         its subregion `name`
+# statements: region / mesh / setsubs / meshop / regionop  (driver op store_session of drv_c13 replays the same list)
+class _Unresolvable(Exception):
+    pass
+
+
+def gen_session(rng, undisciplined=False, nd=None):
+    """mostly-valid session: caller-made Region objects, one or two meshes built from them (the SAME Region object as
+    `region=` of both / the same candidate objects under two names / for two meshes / the mesh's own region as a
+    candidate), then in-place and copying mesh steps, in-place steps on the CALLER's objects, re-assignments of
+    subregions.  Since repo fix 12c808de a mesh holds a region object of its own, so all of this is judged by the
+    oracle.  `undisciplined` sessions also move a mesh's OWN Region objects directly through `mesh.region` /
+    `mesh.subregions[name]` (legitimate, but the caller may break that mesh's SubInv: not checked there)."""
+    ms = fieldio.gen_mesh_spec(rng, ndim=nd or rng.choice([1, 2, 2, 3]), max_cells=60, nmax=5, bc_prob=0.3)
+    ms["intcorners"] = False
+    ndim = len(ms["p1"])
+    units = [rng.choice(["m", "nm", "s", "T"]) for _ in range(ndim)] if rng.random() < 0.5 else None
+    stmts = []
+    kinds = []          # expected kind of what each statement evaluates to: "region" / "mesh"
+
+    def add(st, kind):
+        stmts.append(st)
+        kinds.append(kind)
+        return len(stmts) - 1
+
+    def new_region(p1, p2, own_meta=False, tol=None):
+        st = dict(t="region", p1=list(p1), p2=list(p2), dims=(ms["dims"] if own_meta else None), units=(units if own_meta else None), tol=tol)
+        return add(st, "region")
+
+    def cands(count, shift=None):
+        out = []
+        for name, a, b in gen_subs(rng, ms, count):
+            if shift is not None:
+                ax = rng.randrange(ndim)
+                c = (ms["p2"][ax] - ms["p1"][ax]) / ms["n"][ax]
+                a, b = list(a), list(b)
+                a[ax] += shift * c
+                b[ax] += shift * c
+            out.append([name, {"res": new_region(a, b, tol=rng.choice([None, None, 1e-3, 0.5]))}])
+        return out
+
+    r0 = new_region(ms["p1"], ms["p2"], own_meta=True)
+    c0 = cands(rng.randint(0, 3))
+    if c0 and rng.random() < 0.3:
+        c0.append(["zdup", c0[0][1]])                       # ONE Region object under two names
+    m0 = add(dict(t="mesh", region={"res": r0}, n=ms["n"], bc=ms["bc"], subs=c0), "mesh")
+    meshes = [m0]
+    if rng.random() < 0.5:
+        if rng.random() < 0.5:
+            rb = r0                                          # second mesh on the SAME Region object: each gets its own copy
+        else:
+            rb = new_region(ms["p1"], ms["p2"], own_meta=True)
+        meshes.append(add(dict(t="mesh", region={"res": rb}, n=ms["n"], bc=ms["bc"], subs=list(c0)), "mesh"))   # the same candidate objects
+    spec = dict(kind="mesh", mesh=ms, subs=[1] if c0 else None)
+    for _ in range(rng.randint(1, 6)):
+        c = rng.random()
+        mk = rng.choice(meshes)
+        if c < 0.45:
+            op = gen_op(rng, spec, allow_bad=rng.random() < 0.2, far=False, rot_ref_small=True)
+            op.pop("badarg", None)
+            k = add(dict(t="meshop", mesh=mk, op=op), "mesh")
+            if not op["inplace"]:
+                meshes.append(k)
+        elif c < 0.6:
+            # in-place (or copying) step on one of the CALLER's Region objects
+            own = [i for i, (st, kd) in enumerate(zip(stmts, kinds)) if kd == "region" and i != r0 and st["t"] == "region"
+                   and not any(s2["t"] == "mesh" and s2["region"].get("res") == i for s2 in stmts)]
+            if own:
+                op = gen_op(rng, spec, allow_bad=False, far=False, rot_ref_small=True)
+                add(dict(t="regionop", obj={"res": rng.choice(own)}, op=op), "region")
+        elif c < 0.7:
+            # copying step on a Region object held by a mesh: a new object, the mesh does not move
+            op = dict(gen_op(rng, spec, allow_bad=False, far=False, rot_ref_small=True), inplace=False)
+            add(dict(t="regionop", obj={"mesh": mk, "part": "region"}, op=op), "region")
+        elif c < 0.9:
+            how = rng.choice(["fresh", "own", "ownregion", "other", "shifted", "empty"])
+            if how == "fresh":
+                subs = cands(rng.randint(1, 2))
+            elif how == "shifted":
+                subs = cands(1, shift=rng.choice([0.5, 0.25]))
+            elif how == "own":
+                subs = [[nm, {"mesh": mk, "sub": nm}] for nm, _ in c0]       # mesh.subregions = dict(mesh.subregions)
+            elif how == "ownregion":
+                subs = [["own", {"mesh": mk, "part": "region"}]]
+            elif how == "other":
+                ok = rng.choice(meshes)
+                subs = [[nm, {"mesh": ok, "sub": nm}] for nm, _ in c0]       # another mesh's subregion objects as candidates
+            else:
+                subs = []
+            add(dict(t="setsubs", mesh=mk, subs=subs), "mesh")
+        elif undisciplined:
+            op = dict(gen_op(rng, spec, allow_bad=False, far=False, rot_ref_small=True), inplace=True)
+            tgt = {"mesh": mk, "part": "region"} if (rng.random() < 0.5 or not c0) else {"mesh": mk, "sub": c0[0][0]}
+            add(dict(t="regionop", obj=tgt, op=op), "region")
+        else:
+            op = gen_op(rng, spec, allow_bad=False, far=False, rot_ref_small=True)
+            k = add(dict(t="meshop", mesh=mk, op=op), "mesh")
+            if not op["inplace"]:
+                meshes.append(k)
+    return dict(stmts=stmts, undisciplined=bool(undisciplined))
+
+
+def _sess_resolve(results, ref):
+    if "res" in ref:
+        o = results[ref["res"]]
+        if not isinstance(o, df.Region):
+            raise _Unresolvable()
+        return o
+    m = results[ref["mesh"]]
+    if not isinstance(m, df.Mesh):
+        raise _Unresolvable()
+    if "sub" in ref:
+        if ref["sub"] not in m.subregions:
+            raise _Unresolvable()
+        return m.subregions[ref["sub"]]
+    return m.region
+
+
+def _sess_paths(results):
+    """every way the caller can name a Region object: (path, object)"""
+    out = []
+    for k, o in enumerate(results):
+        if isinstance(o, df.Region):
+            out.append((("res", k), o))
+        elif isinstance(o, df.Mesh):
+            out.append((("mesh", k, "region"), o.region))
+            for nm, sr in o.subregions.items():
+                out.append((("mesh", k, "sub", nm), sr))
+    return out
+
+
+def _mesh_footprint(m):
+    return [m.region] + list(m.subregions.values())
+
+
+def run_session(case, fail):
+    """execute the session on the real code.  Returns the statements as sent to the model (unresolvable ones replaced
+    by `skip`) and, per statement, what it evaluated to, the identity classes and the values of all nameable objects.
+    Property-level oracle (disciplined sessions): ownership of Region objects and the frame of in-place steps."""
+    results, sent, steps = [], [], []
+    disciplined = not case.get("undisciplined")
+    for si, st in enumerate(case["stmts"]):
+        where = f"statement {si} ({st['t']})"
+        before = [(p, o, snap_region(o)) for p, o in _sess_paths(results)]
+        mesh_before = [(k, o, [int(x) for x in o.n], o.bc, [(nm, id(sr)) for nm, sr in o.subregions.items()], id(o.region))
+                       for k, o in enumerate(results) if isinstance(o, df.Mesh)]
+        target = None
+        try:
+            if st["t"] == "region":
+                kw = {}
+                if st.get("dims"):
+                    kw["dims"] = st["dims"]
+                if st.get("units"):
+                    kw["units"] = st["units"]
+                if st.get("tol") is not None:
+                    kw["tolerance_factor"] = st["tol"]
+                thunk = lambda: df.Region(p1=st["p1"], p2=st["p2"], **kw)
+                args = []
+            elif st["t"] == "mesh":
+                reg = _sess_resolve(results, st["region"])
+                subs = {nm: _sess_resolve(results, r) for nm, r in st["subs"]}
+                thunk = lambda: df.Mesh(region=reg, n=st["n"], bc=st.get("bc", ""), subregions=(subs or None))
+                args = list(subs.values())
+            elif st["t"] == "setsubs":
+                target = results[st["mesh"]]
+                if not isinstance(target, df.Mesh):
+                    raise _Unresolvable()
+                subs = {nm: _sess_resolve(results, r) for nm, r in st["subs"]}
+                def thunk(target=target, subs=subs):
+                    target.subregions = subs
+                    return target
+                args = list(subs.values())
+            elif st["t"] == "meshop":
+                target = results[st["mesh"]]
+                if not isinstance(target, df.Mesh):
+                    raise _Unresolvable()
+                thunk = lambda target=target: apply_op(target, st["op"])
+                args = []
+            else:
+                target = _sess_resolve(results, st["obj"])
+                thunk = lambda target=target: apply_op(target, st["op"])
+                args = []
+        except _Unresolvable:
+            results.append(None)
+            sent.append(dict(t="skip"))
+            steps.append(None)
+            continue
+        arg_snaps = [snap_region(a) for a in args]
+        try:
+            res = thunk()
+        except Exception as e:
+            res = None
+        results.append(res)
+        # ---- what the model is told
+        if st["t"] == "region":
+            sent.append(dict(t="region", region=fieldio.region_json(res)) if res is not None else dict(t="skip"))
+        else:
+            j = dict(st)
+            if "op" in j:
+                j["op"] = op_json(dict(st["op"], _nd=len(region_of(target).pmin)))
+            sent.append(j)
+        # ---- observation
+        paths = _sess_paths(results)
+        steps.append(dict(kind=("none" if res is None else "mesh" if isinstance(res, df.Mesh) else "region"),
+                          paths=[list(p) for p, _ in paths],
+                          ident=[[int(a is b) for _, b in paths] for _, a in paths],
+                          vals=[fieldio.region_json(o) for _, o in paths],
+                          meshes=[[k, [int(x) for x in o.n], o.bc, list(o.subregions)] for k, o in enumerate(results) if isinstance(o, df.Mesh)],
+                          mident=[[int(a is b) for b in results if isinstance(b, df.Mesh)] for a in results if isinstance(a, df.Mesh)]))
+        # ---- oracle: ownership and frame
+        inplace_mesh = st["t"] == "meshop" and st["op"]["inplace"]
+        inplace_reg = st["t"] == "regionop" and st["op"]["inplace"]
+        moved = set()
+        if res is not None and inplace_mesh:
+            moved = {id(o) for o in _mesh_footprint(target)}
+        elif res is not None and inplace_reg:
+            moved = {id(target)}
+        for p, o, sn in before:
+            if id(o) not in moved and snap_region(o) != sn:
+                what = "a rejected statement" if res is None else "a statement"
+                fail(f"{where}: {what} changed the Region object {p} that it does not own: {sn['pmin']}..{sn['pmax']} -> "
+                     f"{snap_region(o)['pmin']}..{snap_region(o)['pmax']}")
+                break
+        for k, o, n0, bc0, subs0, rid0 in mesh_before:
+            if o is target and res is not None and st["t"] in ("meshop", "setsubs"):
+                continue
+            if [int(x) for x in o.n] != n0 or o.bc != bc0 or [(nm, id(sr)) for nm, sr in o.subregions.items()] != subs0 or id(o.region) != rid0:
+                fail(f"{where}: changed mesh #{k} (n / bc / the Region objects it holds), which is not its receiver")
+                break
+        for a, sn in zip(args, arg_snaps):
+            if snap_region(a) != sn:
+                fail(f"{where}: a Region object passed as a subregion candidate was modified")
+        if res is not None and st["t"] in ("mesh", "setsubs"):
+            held = list(res.subregions.values())
+            if any(h is a for h in held for a in args):
+                fail(f"{where}: the mesh stores a Region object it was given as a candidate, not a copy")
+        if res is not None and st["t"] == "mesh":
+            old = {id(o) for _, o, _ in before}
+            if res.region is reg or id(res.region) in old:
+                fail(f"{where}: the mesh holds the Region object it was given as region= (or another existing object), not one of its own")
+        if st["t"] == "meshop" and res is not None:
+            if st["op"]["inplace"] and res is not target:
+                fail(f"{where}: the in-place form did not return the mesh itself")
+            if not st["op"]["inplace"]:
+                old = {id(o) for _, o, _ in before}
+                if res is target or any(id(o) in old for o in _mesh_footprint(res)):
+                    fail(f"{where}: the mesh returned by the copying form shares a Region object with an existing object")
+        live = []
+        for o in results:
+            if isinstance(o, df.Mesh) and not any(o is q for q in live):
+                live.append(o)
+        seen = {}
+        for mi, mm in enumerate(live):
+            for o in _mesh_footprint(mm):
+                if id(o) in seen:
+                    fail(f"{where}: one Region object is held twice ({'by the same mesh' if seen[id(o)] == mi else 'by two meshes'})")
+                    break
+                seen[id(o)] = mi
+            if disciplined:
+                check_subinv(mm, fail, where)
+    return dict(sent=sent, steps=steps, nres=sum(r is not None for r in results))
+
+
+def _sess_cmp_region(name, a, b, dis, mag):
+    sc = max([abs(F(x)) for x in b["pmin"] + b["pmax"]] + [mag])
+    for key in ("pmin", "pmax"):
+        if len(a[key]) != len(b[key]) or any(abs(F(x) - F(y)) > Fraction(1, 2**40) * sc for x, y in zip(a[key], b[key])):
+            dis.append(f"{name}: {key} impl {[float(F(x)) for x in a[key]]} vs model {[float(F(x)) for x in b[key]]}")
+            return
+    for key in ("dims", "units"):
+        if a[key] != b[key]:
+            dis.append(f"{name}: {key} impl {a[key]} vs model {b[key]}")
+    if F(a["tol"]) != F(b["tol"]):
+        dis.append(f"{name}: tolerance_factor impl {float(F(a['tol']))} vs model {float(F(b['tol']))}")
+
+
+def cmp_session(case, obs, resp, dis):
+    """model replay (driver op store_session) vs the real session, statement by statement: what the statement evaluated
+    to, which names denote the SAME object (`is` vs equal ids), and the value of every nameable Region object"""
+    mag = Fraction(1)
+    for st in obs["sent"]:
+        for key in ("ref", "v"):
+            for x in (st.get("op", {}) or {}).get(key) or []:
+                mag = max(mag, abs(F(x)))
+    mret = []
+    for si, (step, mr) in enumerate(zip(obs["steps"], resp)):
+        ret = mr["ret"]
+        mret.append(ret)
+        if step is None:
+            continue
+        mkind = "none" if ret is None else ("mesh" if "mesh" in ret else "region")
+        if step["kind"] != mkind:
+            dis.append(f"statement {si} {case['stmts'][si]['t']}: impl evaluated to {step['kind']}, model to {mkind}")
+            return
+        store = mr["store"]
+        ids = []
+        for p in step["paths"]:
+            r = mret[p[1]]
+            if p[0] == "res":
+                ids.append(r["reg"] if r and "reg" in r else None)
+            else:
+                mo = store["meshes"][r["mesh"]] if r and "mesh" in r else None
+                if mo is None:
+                    ids.append(None)
+                elif p[2] == "region":
+                    ids.append(mo["region"])
+                else:
+                    ids.append(dict(map(tuple, mo["subs"])).get(p[3]))
+        if any(i is None for i in ids):
+            dis.append(f"statement {si}: the model cannot name {[p for p, i in zip(step['paths'], ids) if i is None]}")
+            return
+        for a in range(len(ids)):
+            for b in range(a):
+                if bool(step["ident"][a][b]) != (ids[a] == ids[b]):
+                    dis.append(f"statement {si}: {step['paths'][a]} and {step['paths'][b]} are "
+                               f"{'the same object' if step['ident'][a][b] else 'different objects'} in the implementation, "
+                               f"{'the same' if ids[a] == ids[b] else 'different'} in the model")
+                    return
+        for p, i, v in zip(step["paths"], ids, step["vals"]):
+            _sess_cmp_region(f"statement {si}: {p}", v, store["regs"][i], dis, mag)
+            if dis:
+                return
+        mids = []
+        for k, n, bc, names in step["meshes"]:
+            r = mret[k]
+            mo = store["meshes"][r["mesh"]]
+            mids.append(r["mesh"])
+            if mo["n"] != n or mo["bc"] != bc or [s[0] for s in mo["subs"]] != names:
+                dis.append(f"statement {si}: mesh of statement {k}: impl n={n} bc={bc!r} subregions={names}, "
+                           f"model n={mo['n']} bc={mo['bc']!r} subregions={[s[0] for s in mo['subs']]}")
+                return
+        for a in range(len(mids)):
+            for b in range(a):
+                if bool(step["mident"][a][b]) != (mids[a] == mids[b]):
+                    dis.append(f"statement {si}: mesh identity differs between implementation and model")
+                    return
